@@ -49,14 +49,6 @@ Proof.
     apply count_lt_const.
 Qed.
 
-Lemma no_empty_ranges h : forall idx, forallb (fun c => negb (length (c_points c) =? 0)) h = true ->
-  existsb (fun r => snd r =? 0) (comp_ranges h idx) = false.
-Proof.
-  induction h as [|c h IH]; intros idx Hex; [reflexivity|].
-  cbn [comp_ranges existsb snd]. cbn [forallb] in Hex. apply andb_prop in Hex. destruct Hex as [Hc Hh].
-  apply negb_true_iff in Hc. rewrite Hc. cbn [orb]. apply IH. exact Hh.
-Qed.
-
 Theorem progress_np st o : Inv st -> s_be st = Np -> expects_ok_np st o = true -> exists st', step st o = Ok st'.
 Proof.
   intros [F [P [T [D [Hne [Hfmt [HT HC]]]]]]] Hbe Hex.
@@ -70,8 +62,7 @@ Proof.
     unfold bbox_np. destruct (comp_ranges (s_hdr st) 0) as [|r0 rs'] eqn:Ers.
     { destruct (s_hdr st); [congruence|discriminate]. }
     rewrite <- Ers.
-    pose proof (no_empty_ranges _ 0 Hex) as Hz.
-    rewrite Hz. rewrite HT, Nat.ltb_irrefl. destruct (D =? 0) eqn:E0; [apply Nat.eqb_eq in E0; contradiction|].
+    rewrite HT, Nat.ltb_irrefl. destruct (D =? 0) eqn:E0; [apply Nat.eqb_eq in E0; contradiction|].
     match goal with |- context [np_fin (?a, ?b)] => destruct (np_fin_total a b F P (bbox_rows * length (comp_ranges (s_hdr st) 0)) D (dims4_tabs _ _ _ _ _ _) HD) as [m' Hm'] end.
     rewrite Hm'. cbn [rbind]. eexists. reflexivity.
   - (* interpolate *)
